@@ -1135,6 +1135,9 @@ func (env *ExprEnv) call(e *ast.CallExpr) TV {
 		return r
 	case "implies":
 		a := env.coerce(env.eval(e.Args[0]), nil, "")
+		if a.T == "false" {
+			return TV{T: "true", Ty: types.Typ[types.Bool], Sort: "Bool"}
+		}
 		b := env.coerce(env.eval(e.Args[1]), nil, "")
 		return TV{T: fmt.Sprintf("(=> %s %s)", a.T, b.T), Ty: types.Typ[types.Bool], Sort: "Bool"}
 	case "hint":
@@ -1222,6 +1225,15 @@ func (env *ExprEnv) call(e *ast.CallExpr) TV {
 		if ty == nil {
 			fail("cast: unknown type %s", ts)
 		}
+		if x.Sort == "Int" && v.sortOf(ty) != "Int" {
+			// an interface value holding a non-pointer value (slice, struct, ...): unbox it
+			ts2 := v.sortOf(ty)
+			fn := "box_" + mangle(ts2)
+			v.pre("fn "+fn, fmt.Sprintf("(declare-fun %s (%s) Int)", fn, ts2))
+			v.pre("fnu "+fn, fmt.Sprintf("(declare-fun un%s (Int) %s)", fn, ts2))
+			v.pre("fnax "+fn, fmt.Sprintf("(assert (forall ((x %s)) (! (and (= (un%s (%s x)) x) (> (%s x) 0)) :pattern ((%s x)))))", ts2, fn, fn, fn, fn))
+			return TV{T: fmt.Sprintf("(un%s %s)", fn, x.T), Ty: ty, Sort: ts2}
+		}
 		if x.Sort != "Int" || v.sortOf(ty) != "Int" {
 			fail("cast between non-reference sorts")
 		}
@@ -1290,6 +1302,11 @@ func (env *ExprEnv) call(e *ast.CallExpr) TV {
 		s, _ := strconv.Unquote(lit.Value)
 		ty := v.parseType(s, env.pkg)
 		if ty == nil {
+			if strings.Contains(s, "/") {
+				// a fully qualified type of a package that is not part of the loaded program:
+				// no value of this program has it
+				return TV{T: "false", Ty: types.Typ[types.Bool], Sort: "Bool"}
+			}
 			fail("typeis: unknown type %s", s)
 		}
 		return TV{T: fmt.Sprintf("(= (dyn_type %s) %s)", x.T, v.typeID(ty)), Ty: types.Typ[types.Bool], Sort: "Bool"}
